@@ -31,6 +31,7 @@ class IntermediateCodeGen(AbstractCodeGen):
     """
     constImports = {
         'SNMPv2-SMI': ('iso',
+                       'Bits', 'Integer32',  # BITS and INTEGER need no IMPORTS
                        'NOTIFICATION-TYPE',  # bug in some MIBs (e.g. A3COM-HUAWEI-DHCPSNOOP-MIB)
                        'MODULE-IDENTITY', 'OBJECT-TYPE', 'OBJECT-IDENTITY'),
         'SNMPv2-TC': ('DisplayString', 'TEXTUAL-CONVENTION',),  # XXX
